@@ -144,6 +144,8 @@ def run_witnesses(repo, root, units, violations, work):
     with Overlay(repo, root) as ov:
         for name, w in progs:
             cmd = ['cargo', 'run', '--offline', '-q', '-p', w['package'], '--example', 'verif_witness_%s' % name]
+            if w.get('no_default_features'):
+                cmd += ['--no-default-features']
             if w.get('features'):
                 cmd += ['--features', w['features']]
             env = _env()
